@@ -7,8 +7,9 @@ EXTENDS MPTSync, IOUtils
 
 Trace == ndJsonDeserialize(IOEnv.TRACE)
 
-VARIABLES l, bad, nbad, ntr
-tvars == <<content, absent, phase, l, bad, nbad, ntr>>
+VARIABLES l, bad, nbad, ntr,
+          tt, fr     \* the canonical term of the plan's content and its frontier, computed once per plan
+tvars == <<content, absent, phase, l, bad, nbad, ntr, tt, fr>>
 
 MaxBad == 40
 \* deviations are kept per class (operation, failed checks, deviation flags): a flood of one class never hides another
@@ -18,8 +19,8 @@ Flag(cond, name) == IF cond THEN {} ELSE {name}
 FromItems(items) ==
   LET S == ToSet(items) IN [p \in {it[1] : it \in S} |-> (CHOOSE it \in S : it[1] = p)[2]]
 
-T == Canon(content)
-Fr == Frontier(T, absent)
+T == tt
+Fr == fr
 
 ExpectGet(g) ==
   LET x == WalkAbs(T, g[1], absent) IN
@@ -47,7 +48,8 @@ EventFlags(e) ==
          \cup Flag(e.keysOK, "repairkeys")
     [] OTHER -> {"unknown-op"}
 
-TraceInit == content = EmptyContent /\ absent = {} /\ phase = "full" /\ l = 1 /\ bad = {} /\ nbad = 0 /\ ntr = 0
+TraceInit == /\ content = EmptyContent /\ absent = {} /\ phase = "full" /\ l = 1 /\ bad = {} /\ nbad = 0 /\ ntr = 0
+             /\ tt = Canon(EmptyContent) /\ fr = {}
 
 TraceNext ==
   /\ l <= Len(Trace)
@@ -55,6 +57,8 @@ TraceNext ==
          c2 == IF e.op = "syncinit" THEN FromItems(e.init) ELSE content
          a2 == IF e.op = "syncinit" THEN ToSet(e.absent) ELSE absent
      IN  /\ content' = c2 /\ absent' = a2 /\ phase' = phase
+         /\ tt' = IF e.op = "syncinit" THEN Canon(c2) ELSE tt
+         /\ fr' = IF e.op = "syncinit" THEN Frontier(Canon(c2), a2) ELSE fr
          /\ l' = l + 1
          /\ ntr' = IF e.op = "syncinit" THEN ntr + 1 ELSE ntr
          /\ LET f == IF e.op = "syncinit" THEN EventFlags(e)
